@@ -915,11 +915,18 @@ fn util_conversions(_tier: &str) -> Result<String, String> {
         match r { Err(_) => { fails.entry(format!("conv {an}->{bn} {api} panic")).or_insert_with(|| format!("alignment conversion [{an} -> {bn}, {api}]: PANICS")); } Ok(Err(e)) => { fails.entry(format!("conv {an}->{bn} {api} {}", &e[..e.len().min(30)])).or_insert_with(|| format!("alignment conversion [{an} -> {bn}, {api}]: {e}")); } Ok(Ok(())) => {} }
     } } }
     // ------------------------------------------------ variant ------------------------------------------------
-    let vtext = "##fileformat=VCFv4.3\n##INFO=<ID=DP,Number=1,Type=Integer,Description=\"d\">\n##INFO=<ID=AF,Number=A,Type=Float,Description=\"a\">\n##INFO=<ID=DB,Number=0,Type=Flag,Description=\"f\">\n##INFO=<ID=XS,Number=1,Type=String,Description=\"s\">\n##FILTER=<ID=PASS,Description=\"All filters passed\">\n##FILTER=<ID=q10,Description=\"q\">\n##FORMAT=<ID=GT,Number=1,Type=String,Description=\"g\">\n##FORMAT=<ID=DP,Number=1,Type=Integer,Description=\"d\">\n##FORMAT=<ID=XA,Number=.,Type=Integer,Description=\"a\">\n##contig=<ID=sq0,length=2000>\n##contig=<ID=sq1,length=2000>\n#CHROM\tPOS\tID\tREF\tALT\tQUAL\tFILTER\tINFO\tFORMAT\ts0\ts1\nsq0\t10\trs1;rs2\tA\tC,G\t30.5\tPASS\tDP=14;AF=0.5,0.25;DB;XS=%2541 50%25 a%3Bb%2C%3D\tGT:DP:XA\t0|1:10:5,3,2\t1/2:.:70000\nsq0\t20\t.\tAC\tA\t.\tq10\t.\tGT\t./.\t0\nsq1\t5\t.\tN\t<DEL>\t1\t.\tDP=-200\tDP\t1\t-200\n";
+    let vtext = "##fileformat=VCFv4.3\n##INFO=<ID=DP,Number=1,Type=Integer,Description=\"d\">\n##INFO=<ID=AF,Number=A,Type=Float,Description=\"a\">\n##INFO=<ID=DB,Number=0,Type=Flag,Description=\"f\">\n##INFO=<ID=XS,Number=1,Type=String,Description=\"s\">\n##FILTER=<ID=PASS,Description=\"All filters passed\">\n##FILTER=<ID=q10,Description=\"q\">\n##FORMAT=<ID=GT,Number=1,Type=String,Description=\"g\">\n##FORMAT=<ID=DP,Number=1,Type=Integer,Description=\"d\">\n##FORMAT=<ID=XA,Number=.,Type=Integer,Description=\"a\">\n##contig=<ID=sq0,length=2000>\n##contig=<ID=sq1,length=2000>\n#CHROM\tPOS\tID\tREF\tALT\tQUAL\tFILTER\tINFO\tFORMAT\ts0\ts1\nsq0\t10\trs1;rs2\tA\tC,G\t30.5\tPASS\tDP=14;AF=0.5,0.25;DB;XS=%2541 50%25 a%3Bb%2C%3D\tGT:DP:XA\t0|1:10:5,3,2\t1/2:.:70000\nsq0\t20\t.\tAC\tA\t.\tq10\t.\tGT\t./.\t0\nsq1\t5\t.\tN\t<DEL>\t1\t.\tDP=-200\tDP\t1\t-200\nsq1\t7\t.\tA\tC\t.\t.\tDP=3\tGT\t0/1\t1/1\nsq1\t9\tabcdefghijklmno\tACGTACGTACGTACG\tA\t.\t.\tXS=123456789012345\tXA\t1,2,3,4,5,6,7,8,9,10,11,12,13,14,15\t.\nsq1\t11\tabcdefghijklmnop\tA\tC\t.\t.\tXS=12345678901234\tGT\t0/1\t1/1\n";
     let vheader = vcf::io::Reader::new(vtext.as_bytes()).read_header().map_err(|e| format!("vcf header: {e}"))?;
     let vall: Vec<vcf::variant::RecordBuf> = { let mut rd = vcf::io::Reader::new(vtext.as_bytes()); let h = rd.read_header().map_err(|e| format!("{e}"))?; rd.record_bufs(&h).collect::<Result<_, _>>().map_err(|e| format!("vcf: {e}"))? };
+    // sites-only records (NO FORMAT keys, no sample values) between records that have them: the record at sq1:7 and one more at the end
+    // (only between BCF and BCF: VCF text cannot hold a record without genotype columns in a file that declares samples)
+    let vsites: Vec<vcf::variant::RecordBuf> = { let mut v = vall.clone(); for r in v.iter_mut() { if r.variant_start().map(usize::from) == Some(7) { *r.samples_mut() = Default::default(); } } let mut last = v[0].clone(); *last.samples_mut() = Default::default(); *last.reference_sequence_name_mut() = String::from("sq1"); *last.variant_start_mut() = noodles_core::Position::new(13); v.push(last); v };
+    let is_bcf = |f: &variant::io::Format| matches!(f, variant::io::Format::Bcf);
     let vfmts: Vec<(&str, variant::io::Format, Option<variant::io::CompressionMethod>)> = vec![("VCF", variant::io::Format::Vcf, None), ("VCF.gz", variant::io::Format::Vcf, Some(variant::io::CompressionMethod::Bgzf)), ("BCF", variant::io::Format::Bcf, Some(variant::io::CompressionMethod::Bgzf)), ("BCF (uncompressed)", variant::io::Format::Bcf, None)];
-    let vnorm = |r: &vcf::variant::RecordBuf| -> vcf::variant::RecordBuf { let mut r = r.clone(); let keys = r.samples().keys().clone(); let n = keys.as_ref().len(); let vals: Vec<Vec<Option<vcf::variant::record_buf::samples::sample::Value>>> = r.samples().values().map(|s| { let mut v = s.values().to_vec(); v.resize(n, None); v }).collect(); *r.samples_mut() = vcf::variant::record_buf::Samples::new(keys, vals); r };
+    let vnorm = |r: &vcf::variant::RecordBuf| -> vcf::variant::RecordBuf { let mut r = r.clone(); let keys = r.samples().keys().clone(); let n = keys.as_ref().len(); if n == 0 { /* no FORMAT keys: the number of (empty) sample rows carries no data */ *r.samples_mut() = Default::default(); return r; } let vals: Vec<Vec<Option<vcf::variant::record_buf::samples::sample::Value>>> = r.samples().values().map(|s| { let mut v = s.values().to_vec(); v.resize(n, None);
+            // (a vector holding ONE missing element and a missing value are the same VCF datum: both are written ".")
+            for x in v.iter_mut() { use vcf::variant::record_buf::samples::sample::value::Array as A; use vcf::variant::record_buf::samples::sample::Value as V; let one_missing = match x { Some(V::Array(A::Integer(a))) => a.len() == 1 && a[0].is_none(), Some(V::Array(A::Float(a))) => a.len() == 1 && a[0].is_none(), Some(V::Array(A::Character(a))) => a.len() == 1 && a[0].is_none(), Some(V::Array(A::String(a))) => a.len() == 1 && a[0].is_none(), _ => false }; if one_missing { *x = None; } }
+            v }).collect(); *r.samples_mut() = vcf::variant::record_buf::Samples::new(keys, vals); r };
     let vwrite = |fmt: variant::io::Format, cm: Option<variant::io::CompressionMethod>, h: &vcf::Header, recs: &mut dyn Iterator<Item = Result<Box<dyn vcf::variant::Record>, String>>| -> Result<Vec<u8>, String> {
         let mut buf = Vec::new();
         { let mut w = variant::io::writer::Builder::default().set_format(fmt).set_compression_method(cm).build_from_writer(&mut buf); w.write_header(h).map_err(|e| format!("write_header: {e}"))?; for r in recs { let r = r?; w.write_record(h, r.as_ref()).map_err(|e| format!("write_record: {e}"))?; } }
@@ -940,7 +947,7 @@ fn util_conversions(_tier: &str) -> Result<String, String> {
         Ok((h, out))
     };
     let vdetect = |data: &[u8]| -> &'static str { if data.starts_with(b"BCF") { "BCF (uncompressed)" } else if data.starts_with(&[0x1f, 0x8b]) { "bgzf" } else { "VCF" } };
-    for (fname, fmt, cm) in &vfmts { for (sname, recs) in [("varied set", vall.clone()), ("header only", vec![])] {
+    for (fname, fmt, cm) in &vfmts { for (sname, recs) in [("varied set", if is_bcf(fmt) { vsites.clone() } else { vall.clone() }), ("header only", vec![])] {
         cases += 1;
         let r = std::panic::catch_unwind(std::panic::AssertUnwindSafe(|| -> Result<(), String> {
             let data = vwrite(*fmt, *cm, &vheader, &mut recs.iter().map(|r| Ok(Box::new(r.clone()) as Box<dyn vcf::variant::Record>))).map_err(|e| format!("the generic writer fails ({e})"))?;
@@ -948,7 +955,7 @@ fn util_conversions(_tier: &str) -> Result<String, String> {
             if vdetect(&data) != want { return Err(format!("the stream starts like {} not {want}", vdetect(&data))); }
             let (_, back) = vread(&data)?;
             if back.len() != recs.len() { return Err(format!("{} records read back, {} written", back.len(), recs.len())); }
-            for (i, (a, b)) in recs.iter().zip(back.iter()).enumerate() { if vnorm(a) != vnorm(b) { return Err(format!("record {i} reads back different")); } }
+            for (i, (a, b)) in recs.iter().zip(back.iter()).enumerate() { if vnorm(a) != vnorm(b) { return Err(format!("record {i} reads back different: wrote {:?}, read {:?}", vnorm(a).samples(), vnorm(b).samples())); } }
             Ok(())
         }));
         match r { Err(_) => { fails.entry(format!("v {fname} {sname} panic")).or_insert_with(|| format!("generic variant io [{fname}, {sname}]: PANICS")); } Ok(Err(e)) => { fails.entry(format!("v {fname} {sname} {}", &e[..e.len().min(30)])).or_insert_with(|| format!("generic variant io [{fname}, {sname}]: {e}")); } Ok(Ok(())) => {} }
@@ -956,6 +963,7 @@ fn util_conversions(_tier: &str) -> Result<String, String> {
     for by_record in [false, true] { for (an, af, ac) in &vfmts { for (bn, bf, bc) in &vfmts { if an == bn { continue; }
         let api = if by_record { "read_record" } else { "records()" };
         cases += 1;
+        let vall = if is_bcf(af) && is_bcf(bf) { &vsites } else { &vall };
         let r = std::panic::catch_unwind(std::panic::AssertUnwindSafe(|| -> Result<(), String> {
             let src = vwrite(*af, *ac, &vheader, &mut vall.iter().map(|r| Ok(Box::new(r.clone()) as Box<dyn vcf::variant::Record>))).map_err(|e| format!("writing the source fails ({e})"))?;
             let mut rd = variant::io::reader::Builder::default().build_from_reader(std::io::Cursor::new(src)).map_err(|e| format!("source not recognised ({e})"))?;
